@@ -222,7 +222,8 @@ def run(ctx):
     def fails(cand):
         out = ctx.go_run(binary, "TestVerifC26", cand)
         if "HARNESS-TIMEOUT" in out:
-            return False
+            out = out[:out.index("HARNESS-TIMEOUT")]
+            return oracle(cand[:len(out)], out) is not None
         out += ["<missing>"] * (len(cand) - len(out))
         return oracle(cand, out) is not None
 
@@ -231,7 +232,14 @@ def run(ctx):
     for a, b in scs:
         g_ops = ops[a:b]
         if len(impl) < b and timed_out:
+            # cut short by the watchdog: judge what was observed, compare nothing
             dropped += 1
+            part = impl[a:b]
+            msg = oracle(g_ops[:len(part)], part) if part and uses_only_own_kind(g_ops) else None
+            if msg:
+                nviol += 1
+                ctx.violation("property", msg, signature={"oracle": msg[:70]},
+                              replay={"ops": g_ops, "impl": part, "note": "scenario did not finish (watchdog)"})
             continue
         g_impl = impl[a:b] + ["<missing>"] * (b - a - len(impl[a:b]))
         g_model = model[a:b]
@@ -282,7 +290,7 @@ def run(ctx):
     ctx.extra["disagreements"] = ndiff
     ctx.extra["ops"] = len(ops)
     ctx.extra["scenarios_dropped_by_harness_timeout"] = dropped
-    if scs and dropped > 0.2 * len(scs):
+    if scs and dropped > 0.2 * len(scs) and nviol == 0:
         ctx.violation("correspondence", "the harness could not drive more than 20% of the scenarios (watchdog)",
                       signature={"kind": "harness-timeout"}, replay={"dropped": dropped, "total": len(scs)},
                       no_input=True)
